@@ -301,10 +301,20 @@ def _patches(P, b, local):
                 continue
             i = norm(T.call_args(bb)[1])
             nb = tm["t"]
-            if i[0] == "const" and nb is not None:
+            iv = const_value(i)
+            if iv is not None and nb is not None:
                 for k, s2 in enumerate(b.blocks[nb]["stmts"]):
                     if s2["p"] == (tm["dest"][0], "*") and "rv" in s2:
-                        out[i[1]] = (norm(T.rvalue(s2["rv"], nb, k)), tm)
+                        v = norm(T.rvalue(s2["rv"], nb, k))
+                        # v.to_be_bytes()[0] / [1] of a 16-bit value are v >> 8 and v & 0xff
+                        if v[0] == "index" and norm(v[1])[0] == "call" and str(norm(v[1])[1]).endswith("u16>::to_be_bytes"):
+                            which = {"[0]": 0, "[1]": 1}.get(v[2]) if len(v) > 2 and isinstance(v[2], str) else None
+                            inner = norm(norm(v[1])[2][0])
+                            if which == 0:
+                                v = ("bin", "Shr", inner, ("const", 8))
+                            elif which == 1:
+                                v = ("bin", "BitAnd", inner, ("const", 255))
+                        out[iv] = (v, tm)
     # buffer[c..c+2].copy_from_slice(&v.to_be_bytes()) stores the same two octets as buffer[c] = v >> 8; buffer[c+1] = v & 0xff
     for bb, tm in b.calls():
         n = callee_name(tm) or ""
